@@ -88,7 +88,7 @@ class OverloadSpec:
 
     def desc(self):
         return {'tag': self.tag, 'kind': self.kind, 'no_kwargs': self.no_kwargs,
-                'params': [p.desc() for p in self.params]}
+                'decor_seed': getattr(self, 'decor_seed', None), 'params': [p.desc() for p in self.params]}
 
     def build(self):
         """returns a python function carrying the yaql decorations; calling it returns
@@ -116,7 +116,11 @@ class OverloadSpec:
         fn = ns['payload']
         fn.__name__ = 'payload_' + self.tag
         fn.__module__ = 'vmon.generated'
-        for p in self.params:
+        order = list(self.params)
+        if getattr(self, 'decor_seed', None) is not None:
+            import random
+            random.Random(self.decor_seed).shuffle(order)      # parameter-dict order is decorator order
+        for p in order:
             if p.hidden == 'engine':
                 fn = yspecs.inject(p.name, yt.Engine())(fn)
             elif p.hidden == 'context':
